@@ -800,6 +800,8 @@ void OPNMIDIplay::realTime_PatchChange(uint8_t channel, uint8_t patch)
 {
     if(static_cast<size_t>(channel) > m_midiChannels.size())
         channel = channel % 16;
+    if(patch > 127) // a bank has 128 entries
+        patch = 127;
     m_midiChannels[channel].patch = patch;
 }
 
